@@ -1314,7 +1314,7 @@ def _run_gscale(case, ctx, rs):
                 break
             ctx.count("scaled_quadratic_checked")
             got = _scalar(v) - c_obs
-            if not (abs(got - qref) <= 1e-6 * max(1.0, abs(qref)) + 1e-7 * abs(c_obs) * 1e-2):
+            if not (abs(got - qref) <= 1e-6 * max(1.0, abs(qref)) + 1e-10 * abs(c_obs)):   # second term: cancellation against the constant
                 ctx.violation("gaussian_scaled_quadratic_mismatch", cfg,
                               detail=f"dim={d} Sigma=1e{k10}*Sigma0 ({param}/{storage}): logpdf(x)-logpdf(mean) = {got!r}; "
                                      f"-(x-m)^T Sigma^-1 (x-m)/2 = {qref!r}")
